@@ -279,8 +279,10 @@ def plan(base: Repo, targets, seed=0, limit=160):
     items = []
     for relpath, qualname in targets:
         m = base.modules.get(relpath)
-        if m is None or qualname not in m.functions:
-            raise AnalysisError("mutation target vanished: %s:%s" % (relpath, qualname))
+        if m is None:
+            raise AnalysisError("mutation target vanished: %s" % relpath)
+        if qualname not in m.functions:
+            continue
         fnode = m.functions[qualname].node
         for kind, idx in _sites(fnode):
             items.append(("break", relpath, qualname, kind, idx))
